@@ -53,15 +53,14 @@ package boltz
 //@   ensures[read-only] dbSame()
 //@   invariant 1: dbSame()
 // the GetOrCreate family only ever creates buckets (assumed: these are not verified here)
-//@ func (*TypedBucket).GetOrCreateBucket
-//@   modifies bktHas, bktVal, bktSub
 //@ func (*TypedBucket).GetOrCreatePath
 //@   modifies bktHas, bktVal, bktSub
 //@ func GetOrCreatePath
 //@   modifies bktHas, bktVal, bktSub
 //@ func ErrBucket
+//@   props C03
 //@   pure
-//@   ensures result != nil
+//@   ensures[an-error-bucket] result != nil && fresh(result) && result.ErrorHolderImpl != nil && result.Err == err && result.Bucket == nil
 
 // ---- unique index ----
 //@ spec idxBucketPresent(index Int, tx Int) Bool
@@ -93,8 +92,6 @@ package boltz
 //@   invariant 2: ciFix == fix && (!fix ==> dbSame())
 
 // ---- set index ----
-//@ func (*setIndex).getIndexBucket
-//@   modifies *
 //@ funcparam (*setIndex).CheckIntegrity.errorSink(err, fixed)
 //@   requires[fixed-only-after-a-repair-in-fix-mode] fixed ==> ciFix && ciDirty
 //@   modifies *
